@@ -477,7 +477,7 @@ func jobC13(c *rt.Ctx) {
 		}
 	}
 	// entropy answers (E2): per chunk the reader answers in {full, 1-byte reads, short then EOF, error at byte k}
-	answers := []entAnswer{{"full", -1, false, false}, {"1-byte-reads", -1, true, false}, {"eof@0", 0, false, true}, {"err@0", 0, false, false}, {"err@1", 1, true, false}, {"err@15", 15, true, false}, {"err@16", 16, true, false}, {"err@63", 63, true, false}}
+	answers := []entAnswer{{name: "full", failAt: -1}, {name: "1-byte-reads", failAt: -1, chunk1: true}, {name: "eof@0", failAt: 0, eof: true}, {name: "err@0", failAt: 0}, {name: "err@1", failAt: 1, chunk1: true}, {name: "err@15", failAt: 15, chunk1: true}, {name: "err@16", failAt: 16, chunk1: true}, {name: "err@63", failAt: 63, chunk1: true}, {name: "err+data@5-once", failAt: 5, transient: true}, {name: "err+data@40-once", failAt: 40, transient: true}}
 	sizesE := []int{3, 4, 64, 70, 130, 192}
 	for _, n := range sizesE {
 		nchunks := 0
@@ -559,6 +559,7 @@ type scriptReader struct {
 	cur    int // index of current answer
 	given  int // bytes given for the current request
 	want   int // size of the current request (learned from the first Read of a request)
+	fired  int // 1 + index of the request whose transient error was already reported
 }
 
 // entAnswer is one environment answer of the entropy reader for one chunk request.
@@ -567,6 +568,9 @@ type entAnswer struct {
 	failAt int // -1 never; else the request fails once failAt bytes were delivered
 	chunk1 bool
 	eof    bool
+	// transient: the error is reported ONCE, together with the bytes up to failAt; later calls of the
+	// same request deliver data again (a caller that drops an error which came with data goes on)
+	transient bool
 }
 
 func (r *scriptReader) Read(p []byte) (int, error) {
@@ -580,7 +584,10 @@ func (r *scriptReader) Read(p []byte) (int, error) {
 	} else {
 		a.failAt = -1
 	}
-	if a.failAt >= 0 && r.given >= a.failAt {
+	if a.transient && r.fired == r.cur+1 {
+		a.failAt = -1
+	}
+	if a.failAt >= 0 && r.given >= a.failAt && !a.transient {
 		if a.eof {
 			return 0, io.EOF
 		}
@@ -592,6 +599,14 @@ func (r *scriptReader) Read(p []byte) (int, error) {
 	}
 	if a.failAt >= 0 && r.given+n > a.failAt {
 		n = a.failAt - r.given
+		if a.transient {
+			for i := 0; i < n; i++ {
+				p[i] = byte(0x5a + r.given + i*7 + r.cur)
+			}
+			r.given += n
+			r.fired = r.cur + 1
+			return n, errScript
+		}
 	}
 	for i := 0; i < n; i++ {
 		p[i] = byte(0x5a + r.given + i*7 + r.cur)
